@@ -638,6 +638,8 @@ theorem probe_sim_step (s : St) (e : Ev) (s' : St) (ms : ProbeSt) (hR : RelP s m
       | false =>
         refine ⟨?_, by simp [Exec]⟩
         simp only [Bool.false_eq_true, if_false, Corr]; exact ⟨h1, h3 rfl, by rw [h2]; exact hm.2.2⟩
+  | bodyIn t => rw [step_bodyIn s s' t hs]; exact ⟨ms, rfl, hR⟩
+  | bodyOut t => rw [step_bodyOut s s' t hs]; exact ⟨ms, rfl, hR⟩
   | invWait t p =>
     simp only [step] at hs; split at hs <;> try simp at hs
     simp only [Ev.obs, monProbe]
